@@ -36,7 +36,7 @@ else:
         for k, v in c.items():
             if k not in cov:
                 cov[k] = v
-        ev["assumptions"] = (ev.get("assumptions") or []) + (q.get("assumptions") or [])
+        ev["assumptions"] = list(dict.fromkeys((ev.get("assumptions") or []) + (q.get("assumptions") or [])))
         ev["wall_s"] = ev.get("wall_s", 0) + q.get("wall_s", 0)
         ev["violations"] = ev.get("violations", 0) + q.get("violations", 0)
     cov["explanation"] = cov["rule"]
